@@ -470,9 +470,13 @@ def formats_records(job, nid):
             rec["has"]["summary"] = True
             rec["summary"] = tup(rows)
             rec["filesI"] = [INT.s(f) for f in seen_files]
+        rec["cmdFiles"] = [INT.s(f) for f in files]
+        rec["jsonFiles"], rec["junitFiles"] = [], []
+        rec["stopped"] = "Invalid configuration" in se or "could not be found" in se or status != "ok"
         try:
             dj = json.load(open(os.path.join(d, "o.json")))
             rows = []
+            rec["jsonFiles"] = [INT.s(fe.get("file_path", "?")) for fe in dj["files"]]
             for fe in dj["files"]:
                 for v in fe.get("violations", []):
                     rows.append([fe.get("file_path", "?"), v["rule"], int(v["linenumber"]), str(v["solution"]), v["severity"]])
@@ -484,6 +488,7 @@ def formats_records(job, nid):
             root = ET.parse(os.path.join(d, "o.xml")).getroot()
             rows = []
             ok = True
+            rec["junitFiles"] = [INT.s(tc.get("name")) for tc in root.iter("testcase")]
             for tc in root.iter("testcase"):
                 fn = tc.get("name")
                 for fl in tc.iter("failure"):
